@@ -438,6 +438,11 @@ class Interface(object):
         if not (ns in self.imports) and self.is_valid_import(ns):
             self.imports[ns] = set()
 
+        # allocate the prefix now instead of when it's first needed while
+        # processing a request: the interface is shared between threads and
+        # must not change after startup.
+        self.get_namespace_prefix(ns)
+
         class_key = '{%s}%s' % (ns, tn)
         logger.debug('    adding class %r for %r', repr(cls), class_key)
 
